@@ -59,6 +59,9 @@ func (e *Enc) decideCall(callee *ssa.Function, depth int) (callKind, *Contract) 
 	if !e.P.inRepo(callee) {
 		return ckExternPure, nil
 	}
+	if callee.Name() == "init" && callee.Signature.Recv() == nil && callee.Parent() == nil && callee.Pkg != e.fn.Pkg {
+		return ckExternPure, nil // initialisers of imported packages touch only their own globals
+	}
 	if callee.Blocks == nil {
 		return ckExternPure, nil
 	}
@@ -98,6 +101,7 @@ func (f *Frame) call(site ssa.Instruction, common *ssa.CallCommon, pos token.Pos
 		rt = resT.At(0).Type()
 	}
 	f.curArgTypes = nil
+	f.curResTypes = common.Signature().Results()
 	if common.IsInvoke() {
 		f.curArgTypes = append(f.curArgTypes, common.Value.Type())
 	}
@@ -142,7 +146,11 @@ func (f *Frame) call(site ssa.Instruction, common *ssa.CallCommon, pos token.Pos
 		f.havocAll()
 		out = f.havocVal(rt, "ret")
 	default:
-		e.note("extern " + e.P.shortFn(callee) + ": no assumed contract; result unconstrained, /repo heap assumed untouched")
+		if callee.Name() == "init" && callee.Signature.Recv() == nil {
+			e.note("initialisers of imported packages are assumed to touch only their own package state")
+		} else {
+			e.note("extern " + e.P.shortFn(callee) + ": no assumed contract; result unconstrained, /repo heap assumed untouched")
+		}
 		out = f.havocVal(rt, "ext")
 		f.bumpAlloc()
 	}
@@ -225,6 +233,9 @@ func contractParamNames(con *Contract, sig *types.Signature, invoke bool) []stri
 		if n == "" || n == "_" {
 			n = fmt.Sprintf("a%d", i)
 		}
+		if con != nil && i < len(con.ParamNames) {
+			n = con.ParamNames[i]
+		}
 		names = append(names, n)
 	}
 	return names
@@ -235,7 +246,8 @@ func (f *Frame) applyContract(con *Contract, callee *ssa.Function, args []Val, r
 	for _, p := range callee.Params {
 		names = append(names, p.Name())
 	}
-	return f.applyContractEnv(con, names, args, callee.Signature, rt, siteKey, pos, f.e.P.shortFn(callee), nil)
+	extra := map[string]specVal{"self": {v: Val{T: f.e.fnId(callee)}, t: callee.Signature}}
+	return f.applyContractEnv(con, names, args, callee.Signature, rt, siteKey, pos, f.e.P.shortFn(callee), extra)
 }
 
 func (f *Frame) applyContractNamed(con *Contract, names []string, args []Val, rt types.Type, siteKey string, pos token.Pos, disp string) Val {
@@ -565,12 +577,21 @@ func (f *Frame) ghostHooks(siteKey string, args []Val, res Val, after bool) {
 			env.names[fmt.Sprintf("arg%d", i)] = specVal{v: a, t: f.argType(siteKey, i)}
 		}
 		if after {
+			rts := f.curResTypes
 			if res.Tuple != nil {
 				for i, r := range res.Tuple {
-					env.names[fmt.Sprintf("res%d", i)] = specVal{v: r, t: tInt}
+					var t types.Type = tInt
+					if rts != nil && i < rts.Len() {
+						t = rts.At(i).Type()
+					}
+					env.names[fmt.Sprintf("res%d", i)] = specVal{v: r, t: t}
 				}
 			} else {
-				env.names["res"] = specVal{v: res, t: tInt}
+				var t types.Type = tInt
+				if rts != nil && rts.Len() == 1 {
+					t = rts.At(0).Type()
+				}
+				env.names["res"] = specVal{v: res, t: t}
 			}
 		}
 		switch gs.Kind {
